@@ -80,6 +80,11 @@ TABLE = {
             "Held on the generated NUL placements (offset 0, in/after matching lines, 64 KiB boundary, beyond several buffers, last byte) under quit and convert detection for all strategies: no NUL reached the output, printed lines were a prefix of the --text results, warnings/notices appeared exactly when required.",
             "--text output is the reference here (itself judged by C01/C03). Which lines before the first NUL are printed is strategy dependent; only prefix-ness is demanded.",
             "DESIGN.md §3 C14"),
+    "C15": (True, "fault_enumeration",
+            "runtime monitoring with fault injection at the process boundary: rg run as an unprivileged uid over trees with planted unreadable files/directories, dangling links, an open-ok/read-fails link, missing explicit paths, invalid arguments, and a reader that closes stdout after k bytes for enumerated k; status, stdout and stderr checked against a small status model and against the same run without the faulty entries",
+            "For each generated tree the planted fault set is run through every mode and thread count (thorough) and the pipe is closed at every k up to 400 plus samples beyond; exit status, diagnostics naming each fault, unchanged results of the other files, status 2 with empty stdout for invalid arguments, and status 0 / empty stderr after a broken pipe held on all of them.",
+            "Files vanishing between listing and open are not covered (cannot be timed from outside); -q leaves stderr unconstrained.",
+            "DESIGN.md §3 C15"),
     "C16": (True, "fault_enumeration",
             "runtime monitoring with fault injection: scripted Sink (false / Err at event k) and scripted Read (error / Interrupted at read j) enumerated over every k and j of each case, logs checked offline for the prefix relation; rg -m N vs the grep model",
             "For each generated case every stopping point of the result stream and every read index is enumerated (fully for logs up to the tier's bound, sampled with boundaries beyond); prefix-ness, exactly-one-finish-after-stop, no-finish-after-error and error propagation held on all of them.",
